@@ -173,10 +173,13 @@ def build(cfg, sels, seed=0):
     if e in (4, 5):
         survey.append({"type": "text", "name": "ls", "label": "LS", "default": "${last-saved#st}"})
         ext("__last-saved", "jr://instance/last-saved")
+    if e == 6:
+        survey.append({"type": "integer", "name": "lc", "label": "LC", "required": "yes", "constraint": ". > ${last-saved#sd}"})
+        ext("__last-saved", "jr://instance/last-saved")
     if e == 5:
         survey.append({"type": "calculate", "name": "pd3", "calculation": "pulldata('cf', 'a', 'b', ${st})"})
         ext("cf", "jr://file-csv/cf.csv")
-    scols = ["type", "name", "label", "choice_filter", "parameters", "appearance", "calculation", "default"]
+    scols = ["type", "name", "label", "choice_filter", "parameters", "appearance", "calculation", "default", "required", "constraint"]
     scols = [c for c in scols if c in ("type", "name", "label") or any(c in r for r in survey)]
     sheets = [{"name": "survey", "header": scols, "rows": [[r.get(c) for c in scols] for r in survey]},
               {"name": "choices", "header": ccols, "rows": [[r.get(c) for c in ccols] for r in order]}]
